@@ -167,6 +167,33 @@ def run(ck):
         ok = again[0] == 'ok' and (again[1] == standalone[text][1] or same_function(again[1], standalone[text][1], ck.rng))
         ck.ob('C20.stateless', f'eval_fx({text!r}) after junk {j!r}', ok, key='eval_fx:history-dependent',
               what=f'eval_fx({text!r}) = {show(again)} after a failed evaluation of {j!r}, but {show(standalone[text])} on a fresh start')
+    # the same expression with other statistics: the same dict object updated in place, and a fresh dict
+    def rename(e):
+        if isinstance(e, tuple):
+            if len(e) == 3 and e[0] == 'x' and e[1] == 'stat':
+                return ('x', 'stat2', e[2])
+            return tuple(rename(a) for a in e)
+        return e
+    for text in texts[:25]:
+        first = evaluate(text)
+        saved = dict(stats)
+        for k in STATS:
+            stats[k] = Sc(('x', 'stat2', k))
+        second = evaluate(text)
+        stats.clear()
+        stats.update(saved)
+        fresh = {k: Sc(('x', 'stat2', k)) for k in STATS}
+        it.live = X.TRUE
+        try:
+            v = it.call(eval_fx, [text, fresh], {}, None)
+            third = ('ok', v.d if isinstance(v, Sc) else X.num(v))
+        except AbsRaise as e:
+            third = ('raise', e.exc.tname)
+        want = rename(first[1]) if first[0] == 'ok' else None
+        for nm, got in (('updated in place', second), ('a fresh dict', third)):
+            ok = first[0] == 'ok' and got[0] == 'ok' and (got[1] == want or same_function(got[1], want, ck.rng))
+            ck.ob('C20.stateless', f'eval_fx({text!r}) with other statistics ({nm})', ok, key='eval_fx:remembers-earlier-statistics',
+                  what=f'eval_fx({text!r}) evaluated again with different statistics ({nm}) gives {show(got)}; with those statistics it is {X.show(want) if want else "?"}')
     for j in junk:
         got = evaluate(j)
         ck.ob('C20.reject', f'eval_fx({j!r})', got[0] == 'raise', key='eval_fx:accepts-malformed',
